@@ -26,6 +26,29 @@ def dom_atoms(f, inst):
     return out
 
 
+def _scan_header(f, rd):
+    """header block of the innermost natural loop that contains the reader-word loads"""
+    best = None
+    for b in f.blocks:
+        for s_ in b.succ:
+            if f.bdom(s_, b.id):
+                body = {s_, b.id}
+                st = [b.id]
+                while st:
+                    x = st.pop()
+                    if x == s_:
+                        continue
+                    for p_ in f.blocks[x].pred:
+                        if p_ not in body:
+                            body.add(p_)
+                            st.append(p_)
+                if any(i.blk.id in body for i in rd) and (best is None or len(body) < len(best[1])):
+                    best = (s_, body)
+    if best is None:
+        raise Broken("%s: scan loop not found" % f.name)
+    return best[0]
+
+
 def _sync(ctx, fl):
     F = FL[fl]
     return F, ctx.fn(F.lib, F.pfx + "_synchronize_rcu")
@@ -53,6 +76,9 @@ def rule_sb_upd(ctx, rep):
                 continue
             rep.must_pass("C02.sb-upd", "%s.scan%d.dec≺MASTER≺scan" % (fl, k + 1), f, dec, rd, master,
                           what="after announcing sleep (futex dec) a MASTER barrier precedes the re-scan of reader words (store→load)")
+            hdr = _scan_header(f, rd)
+            rep.must_pass("C02.sb-upd", "%s.scan%d.announce≺rescan≺sleep" % (fl, k + 1), f, dec, waits, lambda i, hdr=hdr: i.blk.id == hdr,
+                          what="reader words are re-scanned between announcing the sleep (futex decrement) and sleeping")
             # the announcement and the sleep are taken under the same per-iteration predicate (T10)
             gd = set(a for d_ in dec for a in dom_atoms(f, d_))
             for w_ in waits:
@@ -84,6 +110,10 @@ def rule_sb_upd(ctx, rep):
             common = [a for a in dom_atoms(f, w_) if a in gd and a[0] in ("uge", "ugt", "ult", "ule", "sge", "sgt", "slt", "sle")]
             rep.check(bool(common), "C02.sb-upd", "qsbr.announce⇔sleep", "sleep and announcement are guarded by the same predicate",
                       "the futex wait can be reached in an iteration that did not announce it", [w_.where()])
+        # the decision to sleep is taken by a scan made *after* the announcement: every way from setting a waiting flag to the
+        # futex wait goes through the reader-scan loop again (a reader that went quiescent before it was flagged never wakes us)
+        hdr = _scan_header(f, rd)
+        rep.must_pass("C02.sb-upd", "qsbr.announce≺rescan≺sleep", f, wt, waits, lambda i: i.blk.id == hdr, what="reader words are re-scanned between announcing the sleep (waiting flags) and sleeping")
 
 
 def rule_sb_rd(ctx, rep):
